@@ -121,10 +121,21 @@ struct Out {
   // record a case as non-trivial by the property's rule, keyed by a canonical hash
   void nontrivial(uint64_t h) { distinctNontrivial.insert(h); }
   void sample(const std::string &s) { if (samples.size() < 6) samples.push_back(s); }
+  // A failure classified as a known finding (kf non-empty) is written at most 50 times per
+  // finding (all are counted in the distribution); an unclassified failure is never dropped
+  // because of classified ones (only capped at 200 lines of its own kind).
+  std::map<std::string, long long> kfWritten;
+  long long unclassifiedWritten = 0;
   void fail(const std::string &caseId, const std::string &what, const std::string &input,
             const std::string &kf = "") {
     ++failures;
-    if (failures > 200) return;
+    if (!kf.empty()) {
+      dist["known_finding:" + kf]++;
+      if (++kfWritten[kf] > 50) return;
+    } else {
+      dist["oracle_failures_unclassified"]++;
+      if (++unclassifiedWritten > 200) return;
+    }
     oracle << "{\"case\":\"" << jsonEscape(caseId) << "\",\"what\":\"" << jsonEscape(what) << "\"";
     if (!kf.empty()) oracle << ",\"kf\":\"" << kf << "\"";
     oracle << ",\"input\":\"" << jsonEscape(input) << "\"}\n";
